@@ -17,7 +17,7 @@ use std::collections::HashMap;
 
 pub const CHECK: Check = Check { id: "C15", level: "exploration", flavours: &["prod"], run, replay };
 
-const RULE: &str = "cases = (operation in {write, repair, linear extract}, layer set, compression level, data class random / compressible, \
+const RULE: &str = "cases = (operation in {write, repair in the default and in the 'even unauthenticated' mode, linear extract}, layer set, compression level, data class random / compressible, \
 append piece size, number of files, interleaving on/off), each executed twice in a worker process of its own: streaming S bytes \
 and streaming k*S bytes (quick: 32 MiB vs 128 MiB; thorough: 64 MiB vs 1 GiB) from an on-the-fly generator into a counting \
 sink (inputs of repair / extract are files under /verif/.work). Oracle: peak live heap measured by a counting global \
@@ -39,6 +39,9 @@ pub struct Case {
     /// 0 = data-size family, 1 = file-count family
     pub family: u8,
     pub seed: u16,
+    /// repair only: the reader configuration asks for data even from chunks whose tag cannot be verified
+    #[serde(default)]
+    pub unauth: bool,
 }
 
 fn write_archive<W: std::io::Write>(c: &Case, total: u64, nfiles: usize, sink: W) -> Result<W, String> {
@@ -113,7 +116,11 @@ fn measure(c: &Case, total: u64, nfiles: usize) -> Result<usize, String> {
             let f = std::fs::File::open(&path).map_err(|e| format!("HARNESS: {e}"))?;
             let base = alloc::reset_peak();
             if op == 1 {
-                let mut fs = ArchiveFailSafeReader::from_config(f, prog::reader_config(&keys.recipients)).map_err(|e| format!("failsafe open: {e:?}"))?;
+                let mut rcfg = prog::reader_config(&keys.recipients);
+                if c.unauth {
+                    rcfg.failsafe_return_data_even_unauthenticated();
+                }
+                let mut fs = ArchiveFailSafeReader::from_config(f, rcfg).map_err(|e| format!("failsafe open: {e:?}"))?;
                 let mut out = ArchiveWriter::from_config(CountingSink::default(), prog::writer_config(0, 0, &[])).map_err(|e| format!("{e:?}"))?;
                 let status = fs.convert_to_archive(&mut out).map_err(|e| format!("repair: {e:?}"))?;
                 let peak = alloc::peak().saturating_sub(base);
@@ -192,7 +199,7 @@ pub fn worker(args: &[String]) -> i32 {
 
 pub fn judge(c: &Case, a: usize, b: usize, thorough: bool) -> Result<(), String> {
     let mib = |x: usize| x as f64 / (1 << 20) as f64;
-    let opn = ["write", "repair", "linear extract"][(c.op % 3) as usize];
+    let opn = if c.unauth { "repair (unauthenticated mode)" } else { ["write", "repair", "linear extract"][(c.op % 3) as usize] };
     if c.family == 0 {
         if b > 96 << 20 {
             return Err(format!("{opn} ({}, level {}): peak heap {:.1} MiB while streaming the larger amount (ceiling 96 MiB)", prog::layers_name(c.layers), c.level, mib(b)));
@@ -239,12 +246,13 @@ fn case() -> impl Strategy<Value = Case> {
         any::<u16>(),
     )
         .prop_map(|(op, layers, level, compressible, piece, nfiles, interleave, family, seed)| {
+            let unauth = op % 3 == 1 && seed % 2 == 1;
             // brotli quality >= 3 on incompressible data runs at a few MB/s: keep those cases at quality <= 1
             let level = if compressible { level } else { level.min(1) };
             // repair allocates (and zeroes) its 8 MiB buffer for every content block it meets: archives made of
             // tiny blocks make it slow, which is not what this check measures
             let piece = if op % 3 == 1 { piece.max(65536) } else { piece };
-            Case { op, layers, level, compressible, piece, nfiles, interleave, family, seed }
+            Case { op, layers, level, compressible, piece, nfiles, interleave, family, seed, unauth }
         })
 }
 
@@ -290,6 +298,14 @@ fn run(ctx: &Ctx) -> Report {
         c.interleave = false;
         c.nfiles = 1 + (i % 2) as u16;
         c.level = 1;
+    }
+    // directed: repair of encrypted archives in the 'even unauthenticated' mode
+    for (i, c) in cases.iter_mut().enumerate().skip(20).take(4) {
+        c.op = 1;
+        c.layers = if i % 2 == 0 { 1 } else { 3 };
+        c.family = 0;
+        c.unauth = true;
+        c.piece = c.piece.max(65536);
     }
     let t0 = std::time::Instant::now();
     let mut st = Stats::default();
